@@ -362,8 +362,8 @@ fn replay_lines(lines: &[(usize, String)], mode: &str, skip: &std::collections::
             "huffman" => crate::symbol_replay::huffman_case(&case, mode, &mut rep),
             "expgolomb" | "expgolomb_max" => crate::symbol_replay::golomb_case(&case, mode, &mut rep),
             "bits" => crate::bits_replay::bits_case(&case, mode, &mut rep),
-            "backend" => crate::backend_replay::backend_case(&case, mode, &mut rep),
-            "fixed" | "uniform" | "fast" | "leaky" => crate::models::model_case(&case, mode, &mut rep),
+            "backend" | "adapters" => crate::backend_replay::backend_case(&case, mode, &mut rep),
+            "fixed" | "uniform" | "fast" | "leaky" | "diag" => crate::models::model_case(&case, mode, &mut rep),
             k => { eprintln!("unknown case kind {}", k); std::process::exit(2); }
         }
     }
